@@ -183,6 +183,128 @@ func validatePaths(c *common.Ctx, format string, spell string) {
 	c.NonTrivial()
 }
 
+// validateArgForms: the ways of naming inputs on the validate command line - explicit paths, quoted glob patterns (the
+// CLI expands them itself), directories with -r - alone and in ordered pairs.  The set of files an argument list stands
+// for is computed here from the documented expansion (directory under -r: every *.sql below it; pattern: its matches;
+// anything else: itself).  Whatever the CLI does with a directory it does not walk, two clauses hold under every reading:
+// a rejected file in that set means a non-zero exit and a report that names it; a set of accepted files only means exit 0.
+var argFormTree = []file{
+	{Name: "v.sql", Content: "SELECT a FROM t;\n", Class: "valid"},
+	{Name: "i.sql", Content: "SELECT FROM WHERE;\n", Class: "invalid"},
+	{Name: "sub/n.sql", Content: "SELEC 1;\n", Class: "invalid"},
+	{Name: "sub/ok.sql", Content: "SELECT 2;\n", Class: "valid"},
+	{Name: "sub/deep/z.sql", Content: "SELECT 3;\n", Class: "valid"},
+	{Name: "good/a.sql", Content: "SELECT 4;\n", Class: "valid"},
+	{Name: "good/b.sql", Content: "SELECT b FROM u;\n", Class: "valid"},
+	{Name: "good/inner/c.sql", Content: "SELECT 5;\n", Class: "valid"},
+}
+
+var argFormAtoms = []string{"v.sql", "i.sql", "sub/n.sql", "good/a.sql", "*.sql", "sub/*.sql", "sub/*", "good/*", "g*", "s*", "good", "sub"}
+
+func validateArgForms(c *common.Ctx, format string, recursive bool, atoms []string) {
+	sb := newSandbox()
+	defer sb.close()
+	sb.put(argFormTree)
+	content := map[string]string{}
+	for _, f := range argFormTree {
+		content[filepath.Clean(f.Name)] = f.Content
+	}
+	// the documented expansion, relative to the working directory
+	var set []string
+	hasDir := false
+	for _, a := range atoms {
+		abs := sb.path(a)
+		st, err := os.Stat(abs)
+		switch {
+		case recursive && err == nil && st.IsDir():
+			filepath.Walk(abs, func(p string, info os.FileInfo, err error) error {
+				if err == nil && !info.IsDir() && strings.HasSuffix(p, ".sql") {
+					rel, _ := filepath.Rel(sb.path("."), p)
+					set = append(set, rel)
+				}
+				return nil
+			})
+		case strings.ContainsAny(a, "*?["):
+			ms, _ := filepath.Glob(abs)
+			for _, m := range ms {
+				rel, _ := filepath.Rel(sb.path("."), m)
+				if mi, err := os.Stat(m); err == nil && mi.IsDir() {
+					hasDir = true
+					continue
+				}
+				set = append(set, rel)
+			}
+		case err == nil && st.IsDir():
+			hasDir = true
+		default:
+			set = append(set, a)
+		}
+	}
+	rejected := map[string]bool{}
+	for _, f := range set {
+		if libVerdict(content[filepath.Clean(f)], "") == reject {
+			rejected[filepath.Clean(f)] = true
+		}
+	}
+	args := []string{"validate", "--output-format", format}
+	if recursive {
+		args = append(args, "-r")
+	}
+	args = cat(args, atoms...)
+	d := describe(args, argFormTree, nil) + fmt.Sprintf("  the arguments stand for %v; rejected by the library: %v\n", set, sortedKeys(rejected))
+	c.Input(d)
+	r := sb.run(nil, nil, args...)
+	if r.TimedOut {
+		c.Fail("hang:validate", d)
+		return
+	}
+	cls := "files"
+	if recursive {
+		cls = "recursive"
+	}
+	switch {
+	case len(rejected) > 0 && r.Exit == 0:
+		c.Fail("exit-mismatch:validate:"+format+":arg-forms:"+cls, "exit status 0 although an input the arguments stand for is rejected by the library\n"+d)
+		return
+	case len(rejected) == 0 && !hasDir && len(set) > 0 && r.Exit != 0:
+		c.Fail("exit-mismatch:validate:"+format+":arg-forms:"+cls+":accepted", fmt.Sprintf("exit status %d although the library accepts every input the arguments stand for\n%s", r.Exit, d))
+		return
+	}
+	if format != "text" {
+		named, err := reportNames(format, r.Stdout)
+		if err != nil {
+			c.Fail("bad-json:validate:"+format, fmt.Sprintf("the %s report is not well-formed: %v\n%sreport: %s", format, err, d, common.Trim(r.Stdout, 300)))
+			return
+		}
+		got := map[string]bool{}
+		for n := range named {
+			n = strings.TrimPrefix(n, "file://")
+			if filepath.IsAbs(n) {
+				if rel, err := filepath.Rel(sb.path("."), n); err == nil {
+					n = rel
+				}
+			}
+			got[filepath.Clean(n)] = true
+		}
+		for f := range rejected {
+			if !got[f] {
+				c.Fail("report-names:validate:"+format+":arg-forms:"+cls, fmt.Sprintf("the %s report does not name %s, which the library rejects (named: %v)\n%s", format, f, sortedKeys(got), d))
+				return
+			}
+		}
+		for f := range got {
+			if _, known := content[f]; known && !rejected[f] {
+				c.Fail("report-names:validate:"+format+":arg-forms:"+cls, fmt.Sprintf("the %s report names %s, which the library accepts\n%s", format, f, d))
+				return
+			}
+		}
+	}
+	c.Outcome("validate-arg-forms:" + format + ":" + cls)
+	if len(rejected) > 0 {
+		c.NonTrivial()
+	}
+}
+
 // outputFileReused: what a command writes to its output file must not depend on what the file held before (an
 // earlier, longer report; an earlier formatting result).  Every command x input channel that has an output-file option.
 func outputFileReused(c *common.Ctx, name string, args []string, stdin *string, files []file) {
@@ -271,6 +393,21 @@ func enumValidate(e *common.Enum) {
 		for _, spell := range []string{"plain", "dot", "sub-dotdot", "dot-sub-dotdot", "dotdot-base", "inner-dot", "double-slash"} {
 			format, spell := format, spell
 			do(e, "validate-paths|"+format+"|"+spell, func(c *common.Ctx) { validatePaths(c, format, spell) })
+		}
+	}
+	for _, format := range []string{"text", "json", "sarif"} {
+		for _, rec := range []bool{false, true} {
+			for i, a1 := range argFormAtoms {
+				format, rec, a1 := format, rec, a1
+				do(e, fmt.Sprintf("validate-arg-forms|%s|r=%v|%s", format, rec, a1), func(c *common.Ctx) { validateArgForms(c, format, rec, []string{a1}) })
+				for j, a2 := range argFormAtoms {
+					if i == j {
+						continue
+					}
+					a2 := a2
+					do(e, fmt.Sprintf("validate-arg-forms|%s|r=%v|%s|%s", format, rec, a1, a2), func(c *common.Ctx) { validateArgForms(c, format, rec, []string{a1, a2}) })
+				}
+			}
 		}
 	}
 	b, x := baseClasses, validateClasses
